@@ -720,6 +720,34 @@ def check_escape_machines(prog: Program, res: Results) -> None:
                  "escape; (no escape, backslash) -> sets it; (no escape, quote) -> leaves the quoted state; (no escape, other) -> "
                  "neither — whatever the arrangement of the branches", floor=12)
     machines = 0
+    found_in: set = set()
+
+    def rows_for(f, n, body, q, e, ch):
+        nonlocal machines
+        machines += 1
+        found_in.add(f.key)
+        res.analysed_functions.add(f.key)
+        set_e, clr_e, leave = f"{e} = True", f"{e} = False", f"{q} = False"
+        rows = [
+            ("escape pending, backslash", {q: True, e: True, ch: "\\"}, {clr_e}, {set_e, leave}),
+            ("escape pending, quote", {q: True, e: True, ch: '"'}, {clr_e}, {set_e, leave}),
+            ("escape pending, other", {q: True, e: True, ch: "a"}, {clr_e}, {set_e, leave}),
+            ("no escape, backslash", {q: True, e: False, ch: "\\"}, {set_e}, {leave}),
+            ("no escape, quote", {q: True, e: False, ch: '"'}, {leave}, {set_e}),
+            ("no escape, other", {q: True, e: False, ch: "a"}, set(), {set_e, leave}),
+        ]
+        for name, env, must, never in rows:
+            r.instances += 1
+            o = outcome(body, env)
+            ok = must <= o.must and not (never & o.may)
+            r.ob(ok, {"scanner": f.key, "state": q, "row": name, "must": sorted(o.must & (must | never)), "may": sorted(o.may & (must | never))})
+            if not ok:
+                res.add("R-C12-5", (f.key, q, "escape machine row", name), f.loc(n),
+                        f"{f.key}: in the `{q}` state with {name}, the scanner must do {sorted(must) or 'nothing'} and never "
+                        f"{sorted(never)}, but it must-does {sorted(o.must & (must | never | {clr_e}))} and may do "
+                        f"{sorted(o.may & (must | never))}: e.g. the name `a\\\\` (ending in an escaped backslash) is read with the closing "
+                        f"quote taken for an escaped one")
+
     for f in prog.all_functions():
         if f.module.endswith("color.py"):
             continue
@@ -747,6 +775,7 @@ def check_escape_machines(prog: Program, res: Results) -> None:
                 continue
             ch = chars.pop()
             machines += 1
+            found_in.add(f.key)
             res.analysed_functions.add(f.key)
             set_e, clr_e, leave = f"{e} = True", f"{e} = False", f"{q} = False"
             rows = [
@@ -768,6 +797,29 @@ def check_escape_machines(prog: Program, res: Results) -> None:
                             f"{sorted(never)}, but it must-does {sorted(o.must & (must | never | {clr_e}))} and may do "
                             f"{sorted(o.may & (must | never))}: e.g. the name `a\\\\` (ending in an escaped backslash) is read with the closing "
                             f"quote taken for an escaped one")
+    # a scanner whose arms are arranged differently (`if escape: … elif in_quotes: …`): the roles are read off the loop — the
+    # escape flag is the one a backslash sets, the quoted flag the one a quote clears — and the rows are evaluated on the whole
+    # loop body under "inside quotes"
+    for f in prog.all_functions():
+        if f.key in found_in or f.module.endswith("color.py"):
+            continue
+        for lp in [l for l in walk_no_nested(f.node) if isinstance(l, ast.For) and isinstance(l.target, ast.Name)]:
+            ch = lp.target.id
+            flags = {}
+            for x in ast.walk(lp):
+                if isinstance(x, ast.Assign) and len(x.targets) == 1 and isinstance(x.targets[0], ast.Name) and isinstance(x.value, ast.Constant) \
+                        and isinstance(x.value.value, bool):
+                    flags.setdefault(x.targets[0].id, set()).add(x.value.value)
+            both = {k for k, v in flags.items() if v == {True, False}}
+            if len(both) < 2 or not any(isinstance(c, ast.Compare) and norm(c.left) == ch and isinstance(c.comparators[0], ast.Constant)
+                                         and c.comparators[0].value == "\\" for c in ast.walk(lp)):
+                continue
+            on_bs = outcome(lp.body, {ch: "\\"})
+            on_q = outcome(lp.body, {ch: '"'})
+            es = sorted(k for k in both if f"{k} = True" in on_bs.may and f"{k} = True" not in on_q.may)
+            qs = sorted(k for k in both if f"{k} = False" in on_q.may and k not in es)
+            if len(es) == 1 and len(qs) == 1:
+                rows_for(f, lp, lp.body, qs[0], es[0], ch)
     # the same question for the whole scanner loop: while an escape is pending inside quotes, `${` does not open an interpolation
     sa_ = prog.func("_split_attrpath")
     loops = [l for l in walk_no_nested(sa_.node) if isinstance(l, (ast.While, ast.For))]
